@@ -1,6 +1,7 @@
 package harness
 
 import (
+	"strings"
 	"fmt"
 	"os"
 	"sync/atomic"
@@ -179,6 +180,11 @@ func TestE3RequestVote(t *testing.T) {
 				t.Fatal(err)
 			}
 			for _, b := range oracleC08(c, resp, post, eff) {
+				if strings.HasPrefix(b, "vote granted to a candidate with an older log") && !c.req.Prevote {
+					// the election restriction is what leader completeness rests on: the same observation, stated for C07
+					rep.Add(Finding{Kind: "oracle", Property: "C07", Oracle: "a real vote was granted to a candidate whose log lacks entries the voter holds (any of them may be committed): " + b, Case: line, Impl: impl,
+						Signature: map[string]string{"oracle": "election-restriction", "handler": "RequestVote"}})
+				}
 				rep.Add(Finding{Kind: "oracle", Property: "C08", Oracle: b, Case: line, Impl: impl})
 			}
 			for _, b := range oracleDurableTV(c.pre, post, eff) {
